@@ -1,3 +1,4 @@
 pub mod uni;
 pub mod ros;
 pub mod exhaustive;
+pub mod exhaustive_ros;
